@@ -15,7 +15,7 @@ ZV = {"EXECUTE": "ZExecute", "PERMIT": "ZPermit", "BLOCK": "ZBlock", "FAILURE": 
 YV = {"PERMIT": "YPermit", "BLOCK": "YBlock", "UNKNOWN": "YOther", "EXECUTE": "YOther", "FAILURE": "YOther"}
 ACTIONS = {"SUCCESS": 0, "BLOCKED": 1, "FAILURE": 2, "SKIPPED": 3, "ERROR": 4, "CIRCUIT_OPEN": 5}
 CIRC = {"closed": 0, "open": 1, "half_open": 2}
-OPC = {"tick": 0, "run": 1, "reset": 2, "clear": 3}
+OPC = {"tick": 0, "run": 1, "reset": 2, "clear": 3, "log": 4}
 ZCODE = {None: 0, "EXECUTE": 1, "PERMIT": 2, "BLOCK": 3, "FAILURE": 4}     # anything else: 5
 
 # request outcome classes -> (executor behaviour, assessor behaviour) under the AND gate
@@ -67,17 +67,24 @@ class C08(Check):
     RUN = "run_case"
     N_QUICK = 900
     N_THOROUGH = 12000
-    RULE = ("histories of 1..14 operations (thorough: up to 40) over {run, clock advance, manual reset, clear cache}; "
+    RULE = ("histories of 1..14 operations (thorough: up to 40) over {run, clock advance, manual reset, clear cache, "
+            "get_results_log(limit) (a read-only accessor: no model operation, so every later observation shows it changed nothing)}; "
+            "40% of the loops with silent=False (stdout captured; every print path of run/_check_circuit/_record_*/_print_result), 35% with "
+            "recording on_block/on_permit callbacks (their call counts are observed), 10% with timeout_seconds set; "
+            "get_circuit_breaker_stats()/get_statistics() are read before and after every operation; "
+            "three enumerated + 0.2% generated histories of 1000..2200 operations over up to 1500 distinct prompts reach the caps of "
+            "1000 cache entries (eviction by smallest timestamp, ties, a clock set back, eviction next to expiry) and 1000 logged results; "
             "failure_threshold 1..4 (rarely 0/5/-1), recovery timeout in {0,1us,0.5s,2s,10s,60s}, breaker enabled/disabled, "
             "cache on/off with ttl in {0,1s,timeout,3*timeout,300s}, all six gate logics (AND half of the time); each run picks a "
             "prompt from a small pool (so cache hits occur) and an executor/assessor behaviour in "
             "{EXECUTE,PERMIT,BLOCK,FAILURE,UNKNOWN,raise} x {PERMIT,BLOCK,UNKNOWN,raise}, optionally an executor duration; clock "
             "advances are chosen around the recovery timeout and ttl (timeout-1us, timeout, timeout+1us, 1us, half, double), rarely "
-            "negative. Exhaustive part: every sequence of length <= 3 for thresholds 1,2 (quick) / <= 5 for threshold 2, <= 4 for 1,3,4, "
+            "negative or whole days (+/- the timeout). Exhaustive part: every sequence of length <= 3 for thresholds 1,2 (quick) / <= 5 for threshold 2, <= 4 for 1,3,4, "
             "plus threshold failures followed by every sequence of length <= 3 for thresholds 3,4 (thorough) "
             "over the 9 symbols {success, intentional block, executor failure, agent exception, cache-hit attempt, advance "
             "below/at/above the timeout, manual reset}; and all 6 gate logics x 6 executor x 4 assessor behaviours run twice in CLOSED "
-            "and once as a probe. Outcome classes are read off the agents' verdicts: success = result not blocked, executor failure = "
+            "and once as a probe (with console output and callbacks); a third of the enumerated histories run with console output, a quarter "
+            "with callbacks, a fifth with the log accessor after every operation. Outcome classes are read off the agents' verdicts: success = result not blocked, executor failure = "
             "blocked with executor verdict FAILURE, agent exception, intentional block = any other blocked result. non-trivial = some request failed or the breaker left CLOSED; distinct by case content")
     LEVEL_TEXT = ("Coq theorems over all request histories (lists of run/advance/reset/clear-cache operations, no bound on length), all "
                   "thresholds, timeouts, gate logics, cache settings and clock positions about a hand-written model of "
@@ -88,7 +95,8 @@ class C08(Check):
                   "never count under any gate logic, a disabled breaker never refuses. The model is tied to the code by evaluating it in Coq on every generated "
                   "history the implementation ran under a virtual clock with stub agents (exhaustive for short histories).")
     LEVEL_NOTE = ("Trusts: Coq kernel+VM; the correspondence harness; time modelled as integer microseconds, one clock reading per "
-                  "run() before the agents and one after; agents as scripted stubs; cache eviction above 1000 entries not modelled. "
+                  "run() before the agents and one after; agents as scripted stubs; the 1000-entry results log is not modelled (its accessor is "
+                  "exercised as a transparent operation). "
                   "Axioms: none (Print Assumptions: closed).")
     TECHNIQUE = "Coq proof by induction over the operation list with a breaker invariant + vm_compute correspondence against CoherentFeedForwardLoop under a virtual clock"
     TRUSTED = ["modelled not verified: datetime/timedelta arithmetic is exact integer microsecond arithmetic; the clock is read as one "
@@ -96,14 +104,16 @@ class C08(Check):
                "the loop's two BioAgents are replaced by scripted stub agents (express() counts the call, consumes `cost` from the shared "
                "ATP_Store, optionally advances the clock, then returns an ActionProtein or raises); a few monitor-only histories run the "
                "real BioAgents",
-               "cache eviction above 1000 entries, the 1000-entry results log, callbacks on_block/on_permit (None) and console output are not modelled",
+               "the 1000-entry results log and the text of the console output are not modelled: get_results_log and silent=False are "
+               "exercised as operations/configurations that must leave every observation of the model unchanged; on_block/on_permit are "
+               "benign recording callbacks (counted; callbacks that raise are outside the property); the cache cap of 1000 entries IS modelled",
                "READING: outcome classes are by agent verdicts - success = result not blocked; executor failure = blocked result whose "
                "executor verdict is FAILURE (any assessor verdict, any gate logic); agent exception = either agent raises; intentional "
                "block = every other blocked result. Under OR an executor FAILURE with an assessor PERMIT is an unblocked SUCCESS and "
                "is recorded as a success"]
     ASSUMPTIONS = ["failure_threshold, recovery_timeout, gate_logic, enable_circuit_breaker are not reassigned after construction",
                    "one thread drives the loop (no concurrent run() calls)",
-                   "fewer than 1000 distinct prompts per history (cache size limit not reached)"]
+                   "on_block / on_permit callbacks return normally and do not call back into the loop"]
 
     # -- generation --------------------------------------------------------
     def translate(self):
@@ -125,8 +135,14 @@ class C08(Check):
         ttl = rng.choice([300 * US, 300 * US, timeout, 3 * timeout, US, 0])
         gate = rng.choice(["and"] * 7 + ["or", "or", "executor_priority", "executor_priority", "assessor_priority",
                                          "unanimous", "majority"])
-        return {"enabled": rng.random() < 0.85, "thr": thr, "timeout_us": timeout,
-                "cache": rng.random() < 0.5, "ttl_us": ttl, "gate": gate, "cost": rng.choice([10, 10, 7, 1])}
+        cfg = {"enabled": rng.random() < 0.85, "thr": thr, "timeout_us": timeout,
+               "cache": rng.random() < 0.5, "ttl_us": ttl, "gate": gate, "cost": rng.choice([10, 10, 7, 1])}
+        # knobs that must be transparent to the breaker: console output, recording callbacks, the unused per-operation timeout
+        cfg["silent"] = rng.random() < 0.6
+        cfg["callbacks"] = rng.random() < 0.35
+        if rng.random() < 0.1:
+            cfg["op_timeout"] = rng.choice([0.0, 0.001, 30.0, -1.0])
+        return cfg
 
     def _rand_run(self, rng, profile, timeout, fresh):
         r = rng.random()
@@ -148,13 +164,20 @@ class C08(Check):
     def _rand_tick(self, rng, timeout, ttl):
         d = rng.choice([timeout - 1, timeout, timeout + 1, timeout, timeout // 2, 2 * timeout, 1, 0, US,
                         ttl, ttl - 1, timeout - 2])
-        if rng.random() < 0.03:
+        r = rng.random()
+        if r < 0.03:
             d = -rng.choice([1, US, timeout])
+        elif r < 0.06:
+            # gaps of whole days (timedelta.days / .seconds): a day less one tick, a day, a day plus just under the timeout
+            d = 86400 * US * rng.choice([1, 1, 3]) + rng.choice([0, -1, timeout - 1, -timeout])
         return ["tick", d]
 
     def gen_cases(self, rng, n):
         out = []
         for i in range(n):
+            if rng.random() < 0.002:
+                out.append(self._long_random(rng))
+                continue
             cfg = self._rand_cfg(rng)
             top = 14 if self.tier == "quick" or rng.random() < 0.7 else 40
             nops = rng.randint(1, top)
@@ -168,10 +191,70 @@ class C08(Check):
                     ops.append(["reset"])
                 elif r < 0.34:
                     ops.append(["clear"])
+                elif r < 0.40:
+                    ops.append(["log", rng.choice([100, 1, 0, 3, 5000, -1])])
                 else:
                     ops.append(self._rand_run(rng, profile, cfg["timeout_us"], 100 + k))
             out.append({"cfg": cfg, "ops": ops})
         return out
+
+    # -- histories long enough to reach the caps of 1000 cache entries / 1000 logged results ------------------
+    CAP = 1000
+
+    def _long_cfg(self, **kw):
+        cfg = {"enabled": True, "thr": 3, "timeout_us": 10 * US, "cache": True, "ttl_us": 10 ** 7 * US,
+               "gate": "and", "cost": 1, "silent": True, "callbacks": False}
+        cfg.update(kw)
+        return cfg
+
+    def _long_cases(self):
+        S = lambda p: ["run", p, "EXECUTE", "PERMIT", 0]
+        B = lambda p: ["run", p, "EXECUTE", "BLOCK", 0]
+        F = lambda p: ["run", p, "FAILURE", "PERMIT", 0]
+        out = []
+        # 1. monotone clock: one early entry, CAP more at one later instant -> the early one is evicted by the
+        #    1001st insertion; asking for it again is a miss (and evicts the earliest of the tied ones); the log
+        #    accessor with several limits once more than CAP results have been recorded; then the breaker trips with
+        #    a full cache, refuses cached prompts, and a cached prompt is the probe
+        ops = [S(0), ["tick", 5]] + [(S if k % 7 else B)(k) for k in range(1, self.CAP + 1)]
+        ops += [["log", 100], ["log", 5000], ["log", 0], S(0), S(2), S(1), S(3), S(self.CAP), ["log", 1]]
+        ops += [F(5000), F(5001), F(5002), S(4), S(6000), ["tick", 10 * US - 1], S(10), ["tick", 1], S(10), S(6001), S(0)]
+        out.append({"cfg": self._long_cfg(silent=False, callbacks=True), "ops": ops, "word": "long:evict-monotone"})
+        # 2. clock set back: 500 entries at t=100, 500 at t=50, the 1001st at t=50 evicts the first of the t=50
+        #    group; then an entry older than everything is inserted: it is itself the minimum and evicts itself
+        ops = [["tick", 100]] + [S(k) for k in range(500)] + [["tick", -50]] + [S(k) for k in range(500, 1000)]
+        ops += [S(1000), S(500), S(501), S(0), ["tick", -50], S(2000), S(2000), S(2000), ["tick", 200], S(2001), S(502), S(1)]
+        ops += [["clear"], S(1), S(1), ["log", 2000]]
+        out.append({"cfg": self._long_cfg(enabled=False), "ops": ops, "word": "long:evict-ties-clock-back"})
+        # 3. cap reached while entries are about to expire (ttl 1400us, one request per 1..2us): evictions, then a
+        #    stale entry is deleted and re-inserted at the cap (no eviction)
+        ops = []
+        for k in range(1100):
+            ops += [S(k), ["tick", 1 + k % 2]]
+        ops += [S(0), S(1099), S(1090), S(200)]
+        out.append({"cfg": self._long_cfg(ttl_us=1400, thr=1), "ops": ops, "word": "long:evict-and-expiry"})
+        return out
+
+    def _long_random(self, rng):
+        cfg = self._long_cfg(enabled=rng.random() < 0.5, thr=rng.choice([1, 2, 4]), silent=rng.random() < 0.5,
+                             callbacks=rng.random() < 0.5, ttl_us=rng.choice([10 ** 7 * US, 10 ** 7 * US, 2000, 5 * US]),
+                             gate=rng.choice(["and", "and", "or", "assessor_priority"]))
+        pool = rng.choice([1010, 1100, 1500])
+        ops = []
+        for k in range(rng.randint(1050, 1300)):
+            r = rng.random()
+            if r < 0.12:
+                ops.append(["tick", rng.choice([1, 1, 2, 0, 7, -1, -3, US])])
+            elif r < 0.13:
+                ops.append(["log", rng.choice([1, 100, 2000])])
+            elif r < 0.135:
+                ops.append(["reset"])
+            else:
+                z, y = rng.choice([("EXECUTE", "PERMIT")] * 12 + [("EXECUTE", "BLOCK"), ("BLOCK", "PERMIT"), ("FAILURE", "PERMIT"),
+                                                                  ("raise", "PERMIT"), ("UNKNOWN", "PERMIT")])
+                p = rng.randrange(pool) if rng.random() < 0.8 else k
+                ops.append(["run", p, z, y, 0])
+        return {"cfg": cfg, "ops": ops, "word": "long:random"}
 
     def _symbolic(self, thr, word, timeout=10 * US):
         """A word over S B F X C (cache-hit attempt) - = + (advance below/at/above the timeout) R (reset)."""
@@ -223,11 +306,21 @@ class C08(Check):
                     ops = [["run", 1, z, y, 0], ["run", 2, z, y, 0], ["tick", 10 * US], ["run", 3, z, y, 0],
                            ["run", 4, "EXECUTE", "PERMIT", 0]]
                     out.append({"cfg": {"enabled": True, "thr": 2, "timeout_us": 10 * US, "cache": False, "ttl_us": 300 * US,
-                                        "gate": gate, "cost": 10}, "ops": ops, "word": f"{gate}:{z}/{y}"})
+                                        "gate": gate, "cost": 10, "silent": False, "callbacks": True},
+                                "ops": ops, "word": f"{gate}:{z}/{y}"})
         # the property's own witnesses, always present
         out.append(self._symbolic(2, "FFFFF"))
         out.append(self._symbolic(4, "FXFX-S=S"))
         out.append(self._symbolic(3, "FFF=F-S=S"))
+        # a third of the enumerated histories with console output, a quarter with recording callbacks, some with the
+        # results-log accessor between every two operations (all three must be invisible)
+        for i, c in enumerate(out):
+            if "silent" not in c["cfg"]:
+                c["cfg"]["silent"] = i % 3 != 1
+                c["cfg"]["callbacks"] = i % 4 == 2
+                if i % 5 == 3:
+                    c["ops"] = [x for o in c["ops"] for x in (o, ["log", 2])]
+        out += self._long_cases()
         return out
 
     # -- implementation ----------------------------------------------------
@@ -285,6 +378,18 @@ class C08(Check):
         self._patched = (L, orig)
         L.datetime = FakeDT
         sink = io.StringIO()
+        cb = {"block": 0, "permit": 0}
+        kw = {}
+        if cfg.get("callbacks"):
+            # benign recording callbacks (the property says nothing about callbacks that raise)
+            def on_block(result):
+                cb["block"] += 1
+
+            def on_permit(result):
+                cb["permit"] += 1
+            kw.update(on_block=on_block, on_permit=on_permit)
+        if cfg.get("op_timeout") is not None:
+            kw["timeout_seconds"] = cfg["op_timeout"]
         try:
             with contextlib.redirect_stdout(sink):
                 store = ATP_Store(budget=budget0, silent=True)
@@ -292,7 +397,8 @@ class C08(Check):
                     budget=store, gate_logic=L.GateLogic(cfg["gate"]),
                     enable_circuit_breaker=cfg["enabled"], failure_threshold=cfg["thr"],
                     recovery_timeout_seconds=cfg["timeout_us"] / US,
-                    enable_cache=cfg["cache"], cache_ttl_seconds=cfg["ttl_us"] / US, silent=True)
+                    enable_cache=cfg["cache"], cache_ttl_seconds=cfg["ttl_us"] / US,
+                    silent=cfg.get("silent", True), **kw)
             if loop.recovery_timeout != timedelta(microseconds=cfg["timeout_us"]) or \
                     loop.cache_ttl != timedelta(microseconds=cfg["ttl_us"]):
                 raise RuntimeError("timeout/ttl not representable exactly")
@@ -327,17 +433,21 @@ class C08(Check):
                         "errors": g["total_errors"], "z": zc(), "y": yc(), "spent": budget0 - store.atp,
                         "energy_ops": getattr(store, "_operations_count", 0),
                         "requests": g["total_requests"], "blocked": g["total_blocked"], "permitted": g["total_permitted"],
-                        "cache": g["cache_size"], "now": clock["us"]}
+                        "cache": g["cache_size"], "now": clock["us"], "cb_block": cb["block"], "cb_permit": cb["permit"]}
 
             obs, trace = [], []
             for op in case["ops"]:
                 before = snap()
                 res = None
                 exc = None
+                loglen = None
+                mark = sink.tell()
                 try:
                     with contextlib.redirect_stdout(sink):
                         if op[0] == "tick":
                             clock["us"] += op[1]
+                        elif op[0] == "log":
+                            loglen = len(loop.get_results_log(op[1]) if op[1] != 100 else loop.get_results_log())
                         elif op[0] == "reset":
                             loop.reset_circuit_breaker()
                         elif op[0] == "clear":
@@ -354,6 +464,14 @@ class C08(Check):
                 except Exception as e:  # run() is not supposed to raise
                     exc = type(e).__name__
                 after = snap()
+                sink.seek(mark)
+                printed = sink.read()
+                step = {"op": op, "before": before, "after": after, "res": res, "exc": exc, "printed": printed, "loglen": loglen}
+                if op[0] == "log" and exc is None:
+                    # read-only accessor: no row - the model has no such operation, so every later row shows that the
+                    # call changed nothing
+                    trace.append(step)
+                    continue
                 row = [OPC[op[0]]]
                 if exc is not None:
                     row += [-1, 0, 0, 0, 0, 0]
@@ -366,9 +484,10 @@ class C08(Check):
                         int(after["lf"] is not None), after["lf"] or 0,
                         int(after["ls"] is not None), after["ls"] or 0,
                         after["trips"], after["errors"], after["z"], after["y"], after["spent"],
-                        after["requests"], after["blocked"], after["permitted"], after["cache"], after["now"]]
+                        after["requests"], after["blocked"], after["permitted"], after["cache"], after["now"],
+                        after["cb_block"], after["cb_permit"]]
                 obs.append(row)
-                trace.append({"op": op, "before": before, "after": after, "res": res, "exc": exc})
+                trace.append(step)
                 if exc is not None:
                     break
             return obs, {"steps": trace}
@@ -383,6 +502,8 @@ class C08(Check):
                f"{cz(c['ttl_us'])} {GATES[c['gate']]} {cz(c['cost'])} false false)")
         ops = []
         for op in ([] if case.get("real_agents") else case["ops"]):
+            if op[0] == "log":
+                continue                      # transparent accessor: not an operation of the model
             if op[0] == "tick":
                 ops.append(f"Tick {cz(op[1])}")
             elif op[0] == "reset":
@@ -393,7 +514,7 @@ class C08(Check):
                 zb = "Raises" if op[2] == "raise" else f"(Returns {ZV[op[2]]})"
                 yb = "Raises" if op[3] == "raise" else f"(Returns {YV[op[3]]})"
                 ops.append(f"Run (mkReq {cz(op[1])} {zb} {yb} {cz(op[4])})")
-        return ctuple(cfg, clist(ops))
+        return ctuple(cfg, cbool(bool(c.get("callbacks"))), clist(ops))
 
     # -- the property, on the implementation's trace ------------------------
     def monitor(self, case, obs, trace):
@@ -484,7 +605,8 @@ class C08(Check):
             ({"enabled": True, "thr": 2, "timeout_us": 10 * US, "cache": False, "ttl_us": 300 * US, "gate": "and", "cost": 10},
              25, ["run a", "run b", "run c", "run d", 9 * US, "run e", US, "run f", "run g"]),
             # "deploy" makes the executor return FAILURE; assessor blocks "destroy"
-            ({"enabled": True, "thr": 1, "timeout_us": 2 * US, "cache": True, "ttl_us": 300 * US, "gate": "and", "cost": 10},
+            ({"enabled": True, "thr": 1, "timeout_us": 2 * US, "cache": True, "ttl_us": 300 * US, "gate": "and", "cost": 10,
+              "silent": False, "callbacks": True},
              1000, ["list files", "destroy everything", "deploy app", "list files", "other", 2 * US, "status", "status", "deploy web"]),
             ({"enabled": True, "thr": 3, "timeout_us": 2 * US, "cache": False, "ttl_us": 300 * US, "gate": "assessor_priority", "cost": 10},
              1000, ["deploy a", "deploy b", "deploy c", "x", 2 * US - 1, "y", 1, "z", "deploy d", "w"]),
@@ -516,11 +638,23 @@ class C08(Check):
     def classify(self, case, obs, trace):
         c = case["cfg"]
         ks = [f"thr={c['thr']}", "enabled" if c["enabled"] else "disabled", f"gate={c['gate']}",
-              "cache" if c["cache"] else "nocache", f"ops={min(len(case['ops']), 15)}"]
+              "cache" if c["cache"] else "nocache", f"ops={min(len(case['ops']), 15)}",
+              "silent" if c.get("silent", True) else "verbose", "callbacks" if c.get("callbacks") else "no-callbacks"]
+        if c.get("op_timeout") is not None:
+            ks.append("timeout_seconds-set")
         for s in trace.get("steps", []):
             op, b, a, res = s["op"], s["before"], s["after"], s["res"]
+            if s.get("printed"):
+                for key, tag in (("Cache hit", "cache-hit"), ("half-open", "half-open"), ("re-opened", "re-opened"),
+                                 ("Circuit opened", "opened"), ("Circuit closed", "closed"), ("BLOCKED by", "blocked"),
+                                 ("RUNTIME ERROR", "failure"), ("SKIPPED", "skipped"), ("SUCCESS", "success"),
+                                 ("\u26a0", "other")):
+                    if key in s["printed"]:
+                        ks.append("printed=" + tag)
             if op[0] != "run":
                 ks.append("op=" + op[0])
+                if s.get("loglen") is not None and s["loglen"] >= self.CAP:
+                    ks.append("results-log-at-cap")
                 continue
             if res is None:
                 continue
@@ -530,6 +664,10 @@ class C08(Check):
                 ks.append(f"out={oc}/gate={c['gate']}")
             if oc == "executor_failure" and res["success"]:
                 ks.append("executor-failure-behind-assessor-block")
+            if a["cb_block"] > b["cb_block"] or a["cb_permit"] > b["cb_permit"]:
+                ks.append("callback-invoked")
+            if b["cache"] >= self.CAP and oc not in ("refused", "cache_hit", "exception") and a["cache"] == b["cache"]:
+                ks.append("cache-entry-evicted-at-cap")
             if a["trips"] > b["trips"]:
                 ks.append("trip-from-" + ["closed", "open", "half_open"][2 if b["state"] in (1, 2) else 0])
             if b["state"] in (1, 2) and a["state"] == 0:
